@@ -15,6 +15,8 @@ CLAIMED = {
          "Not decided: execution order/non-overlap in time, result routing, Stop semantics (goroutines/channels are outside the verified subset so far)."),
  "C17": ("proof", "NewReMap establishes a strictly ascending partition ending at MaxUint64; SearchUInt64s/SearchIndex return the unique shard in range; SimpleIndex is value mod shards for every integer width (sign extension included) and in range for every key", "4/C17",
          "trusted: sort.Search extern, xxhash determinism, options install 1<=prime<=2^31. Not decided: sharded containers == unsharded (composition with C01/C02/C04 contracts)."),
+ "C18": ("proof", "Transact: every normal and panicking path (steps may return nil, an error, or panic with any value including nil) ends with exactly one of commit/rollback after a successful begin, commit iff every step succeeded, no step after the first failure, nil only after commit, never exits by panic; nothing begun for an empty list", "4/C18",
+         "trusted: gorm Begin/Commit/Rollback extern contracts (ghost counters, no panic), step contract (any outcome). Not decided: Combine (returns a closure), database behaviour."),
 }
 NOT_YET = {
  "C01": "contracts for semap not written yet (needs the container/list ranked-set model); to be claimed when built",
@@ -28,7 +30,6 @@ NOT_YET = {
  "C13": "sync.Cond ghost-counter model not built yet",
  "C15": "mux worker contracts not built yet",
  "C16": "stcp session contracts not built yet (goroutines/network: only thin safety clauses are within reach)",
- "C18": "Transact contracts (defer/panic/recover paths) not built yet",
  "C19": "vcode contracts (string model) not built yet",
  "C20": "tex scalar wrapper contracts (strconv externs) not built yet",
 }
